@@ -273,7 +273,8 @@ func genC15(r *hx.R, tier string, _ string) (*hx.Suite, error) {
 			k, err := cdi.AnnotationKey(pl, id)
 			m = map[string]string{"a": "b"}
 			if err == nil {
-				m[k] = "vendor.com/class=old"
+				// a used key is used whatever it holds: a device list, nothing at all, blanks, something else
+				m[k] = hx.Pick(r, []string{"vendor.com/class=old", "", "vendor.com/class=old", " ", "x", ","})
 			}
 		}
 		s.Add(c15Upd(m, pl, id, ds, "update"))
